@@ -57,8 +57,22 @@ SilenceOK(e) == /\ e.res = "ok" /\ e.last_refresh <= e.ts
 \* a configured peer that never answers is dialled again and again, never more than an hour apart
 BackoffOK(e) == e.panics = 0 /\ e.dials >= 2 /\ e.max_gap <= 3600 + 2 /\ e.tail_gap <= 3600 + 2
 
+\* C14 ---------------------------------------------------------------------------------------------------------------
+Log2Ceil(n) == IF n <= 2 THEN 1 ELSE IF n <= 4 THEN 2 ELSE IF n <= 8 THEN 3 ELSE 4
+\* a bootstrap configuration enumerated by TLC for Mesh.tla (or a sampled larger graph) on real nodes: fully meshed
+\* within ceil(log2 n) + 1 announcement intervals (+ 5 s), stays meshed, and nobody ever lists itself (Mesh!FullMeshBy, NoSelfLink)
+MeshRunOK(e) == /\ e.panics = 0 /\ ~e.self_peer
+                /\ e.t_full >= 0 /\ e.t_full <= (Log2Ceil(e.n) + 1) * e.interval + 5
+                /\ e.stable
+\* a node whose own handshake datagrams reach it through another address never lists itself and drops the attempt;
+\* behind a port forwarding inside a mesh it adopts the address its peers list under its identity and never dials it
+SelfDialOK(e) == /\ e.panics = 0 /\ ~e.self_peer /\ ~e.pending_left
+                 /\ e.in_mesh => (e.learnt /\ e.dials_of_own_alias = 0 /\ e.mesh_ok)
+
 Step(e) ==
   CASE e.op = "c09run"  -> C09RunOK(e)
+    [] e.op = "meshrun" -> MeshRunOK(e)
+    [] e.op = "selfdial" -> SelfDialOK(e)
     [] e.op = "interval" -> IntervalEvOK(e)
     [] e.op = "hetero" -> HeteroOK(e)
     [] e.op = "latejoin" -> LateJoinOK(e)
